@@ -18,6 +18,9 @@ func main() {
 	if len(os.Args) > 1 && os.Args[1] == "check" {
 		os.Exit(runCheck(os.Args[2:]))
 	}
+	if len(os.Args) > 2 && os.Args[1] == "replay" {
+		os.Exit(runReplay(os.Args[2], os.Args[3:]))
+	}
 	repo := flag.String("repo", "/repo", "repository under test")
 	hdir := flag.String("harness-dir", "/verif/harness", "harness sources")
 	pkg := flag.String("pkg", "store", "package (suffix under the module) holding the harness")
